@@ -89,6 +89,12 @@ def rule_b_par(ctx):
                 s, _ = b.slice_back(r.loc, r.args[1:])
                 if not all(c.loc in s for c in ds):
                     why.append("the reduction does not combine the results of both drives")
+                elif len(r.args) == 3 and len(cons) == 2:
+                    # rayon's contract: reduce(left result, right result) — the first operand is what the split-off *left* consumer produced
+                    left_drive = ds[cons.index("left")] if "left" in cons else None
+                    s1, _ = b.slice_back(r.loc, [r.args[1]])
+                    if left_drive is not None and left_drive.loc not in s1:
+                        why.append("the reduction is handed the right half's result as its left operand")
                 if not (r.dest and (r.dest["local"] == 0 or r.dest["local"] in b.ret_locals())):
                     why.append("the reduction is not the returned result")
         if len(dn) != 1:
